@@ -965,7 +965,7 @@ RULE = ('outputs rendered from record lists (file, line, column, severity, messa
         'crash); paths are <tmp root>/tmp[a-z0-9_]{8}/src/<word>/<Main.java|program.kt|Main.groovy|program.scala> with '
         '<tmp root> a platform default (/tmp, /var/tmp, macOS /var/folders/../T) and <word> from src/resources/words. '
         'Families per compiler: records = EVERY record list of length <= %(n)d over 3 files x {error,warning,note} x '
-        '%(s)d message shapes (short and long package names); paths = %(w)s of the %(W)d package words; random = '
+        'up to %(s)d message shapes per severity (short and long package names); paths = %(w)s of the %(W)d package words; random = '
         '%(r)d random batches (<= %(m)d records, <= 8 files, position-less/global lines, launcher noise, with/without '
         'summary; VERIF_SEED); filter = every record list of length <= %(f)d over 2 files x {error,warning} x 2 shapes '
         'with one pattern aimed at each record (whole diagnostic literal / any file, message as reported / generalised, '
@@ -1000,8 +1000,8 @@ def _record(violations, lang, family, batch, v):
 
 def bounds(tier):
     thorough = tier == 'thorough'
-    return dict(nrec=4 if thorough else 3, nshape=2, nrand=8000 if thorough else 400, maxrec=40 if thorough else 25,
-                step=1 if thorough else 13)
+    return dict(nrec=4 if thorough else 3, nshape=2, nrand=8000 if thorough else 300, maxrec=40 if thorough else 25,
+                step=1 if thorough else 26)
 
 
 def synthetic(lang, tier, seed, stop_first=False, families=None):
@@ -1086,12 +1086,12 @@ def run(tier, seed, stop_first=False, only_lang=None, families=None):
     jinfo = []
     jobs = []
     if (not only_lang or only_lang == 'java') and (not families or 'javac-real' in families) and not stop[0]:
-        corpus = JAVAC_CORPUS if thorough else [c for c in JAVAC_CORPUS if c[0] in
-                                                ('mixed', 'interleaved', 'qualified-name', 'syntax-stops-attribution')]
-        flags = JAVAC_FLAGS if thorough else JAVAC_FLAGS[:1]
-        jobs = [(n, s, f) for n, s in corpus for f in flags]
-        if not thorough:
-            jobs.append(('mixed', corpus[0][1], JAVAC_FLAGS[1]))
+        corpus = dict(JAVAC_CORPUS)
+        if thorough:
+            jobs = [(n, s, f) for n, s in JAVAC_CORPUS for f in JAVAC_FLAGS]
+        else:
+            jobs = [('mixed', corpus['mixed'], ['-nowarn']), ('interleaved', corpus['interleaved'], ['-Xlint:all']),
+                    ('qualified-name', corpus['qualified-name'], ['-nowarn'])]
         with concurrent.futures.ThreadPoolExecutor(max_workers=8) as ex:
             futs = [ex.submit(javac_case, n, s, f, None, thorough and f == ['-nowarn']) for n, s, f in jobs]
             futs.append(ex.submit(javac_crash_case))
